@@ -113,6 +113,8 @@ def run(P, R, tier):
     _pp.check_pairwise_folds(P, R, ['kmeans', 'utils'])
     from ..engines import proto as _pbs
     _pbs.check_block_sums(P, R, "kmeans:m_step")
+    from ..engines import traps as _traps
+    _traps.check(P, R, ['kmeans', 'utils'], scope='(kmeans:(e_step|m_step|get_centroids_distance|get_closest_centroid_index|KMeansMachine\\.fit)|utils:)')
 
 
 EXPLANATION += ' Also: (ACC.sum) the per-block statistics are added (+=) from zero in the M-step; (DTYPE.raw); (COVER.pairs); (DIM.ABS) no dimensioned quantity is tested against an absolute constant.'
